@@ -198,7 +198,7 @@ impl Sut for PStrSut {
         }
         v
     }
-    fn random_op(&self, rng: &mut Rng, _state: &[u8]) -> Op {
+    fn random_op(&self, rng: &mut Rng, _state: &[u8], _phase: usize) -> Op {
         let r = rng.below(10);
         if r < 7 {
             let s = &self.strs[rng.below(self.strs.len() as u64) as usize];
@@ -447,7 +447,7 @@ impl Sut for PodStrSut {
         }
         v
     }
-    fn random_op(&self, rng: &mut Rng, _state: &[u8]) -> Op {
+    fn random_op(&self, rng: &mut Rng, _state: &[u8], _phase: usize) -> Op {
         let s = &self.strs[rng.below(self.strs.len() as u64) as usize];
         match rng.below(6) {
             0 => Op::new("asstr", &[]),
@@ -712,7 +712,7 @@ impl Sut for PodSut {
             v
         }
     }
-    fn random_op(&self, rng: &mut Rng, state: &[u8]) -> Op {
+    fn random_op(&self, rng: &mut Rng, state: &[u8], _phase: usize) -> Op {
         let ops = self.ops(state);
         ops[rng.below(ops.len() as u64) as usize].clone()
     }
